@@ -448,44 +448,52 @@ deriving Repr
 
 /-- What the else-branch of the loop body does to the entry `base` (fresh
     prototype, or the existing entry when the key was found and the product has
-    no arch): `err`, or the mutated entry together with "keep it?" and the
-    ranger's add. -/
+    no arch): `err`, or the entry's new vulnerability and range serial together
+    with "keep it?" and the ranger's add. -/
 inductive Applied where
   | err
-  | done (e : FxEntry) (keep : Bool) (add : Option RangerAdd)
+  | done (v : Vuln) (rangeId : Option Nat) (keep : Bool) (add : Option RangerAdd)
 deriving Repr
 
-def applyFixed (env : VexEnv) (d : VexDoc) (p : FxProd) (base : FxEntry) (nextId : Nat) : Applied :=
-  let v := { base.v with fixed := p.fixedIn, hasPkg := true, pkgName := p.pkgName, pkgKind := "binary",
-                         pkgModule := p.modName, pkgArch := "" }
-  let v := if p.arch ≠ "" then { v with pkgArch := p.arch, archOp := 3 } else v
-  let afterRepo : Option (FxEntry × Option RangerAdd × Bool) :=      -- none = error; the flag: go on (true) or discard (false)
-    if p.purlType = "rpm" then
-      match repoOfCpe env p.cpeHelper with
-      | none => none
-      | some repo => some ({ base with v := { v with repo := repo } }, none, true)
-    else if p.purlType = "oci" then
-      let v := { v with repo := env.goldRepo }
-      match env.tags.find? (fun t => t.1 == p.fixedIn) with
-      | some (_, some mm) =>
-        let r := ociRangeOf mm
-        some ({ base with v := { v with range := some r }, rangeId := some nextId }, some ⟨p.pkgName, r.lower, nextId⟩, true)
-      | _ => some ({ base with v := { v with range := none }, rangeId := none }, none, false)
-    else some ({ base with v := v }, none, false)
-  match afterRepo with
+/-- The entry's vulnerability after the assignments every product makes first:
+    fixed version, a new package (name, binary, module), and with an arch that
+    arch and the pattern-match operation. -/
+def startFixed (p : FxProd) (base : Vuln) : Vuln :=
+  let v := { base with fixed := p.fixedIn, hasPkg := true, pkgName := p.pkgName, pkgKind := "binary",
+                       pkgModule := p.modName, pkgArch := "" }
+  if p.arch ≠ "" then { v with pkgArch := p.arch, archOp := 3 } else v
+
+/-- The end of the loop body: the remediation's URL joins the links, then
+    severity string, normalized severity and the disregard test. -/
+def finishFixed (env : VexEnv) (d : VexDoc) (pid : String) (v : Vuln) (rid : Option Nat) (add : Option RangerAdd) : Applied :=
+  let v := match findRemediation d pid with
+    | some r => { v with links := v.links ++ " " ++ r.url }
+    | none => v
+  match applyScore env d pid v with
   | none => .err
-  | some (e, add, false) => .done e false add
-  | some (e, add, true) =>
-    let v := e.v
-    let v := match findRemediation d p.pid with
-      | some r => { v with links := v.links ++ " " ++ r.url }
-      | none => v
-    match applyScore env d p.pid v with
+  | some (v, keep) => .done v rid keep add
+
+def applyFixed (env : VexEnv) (d : VexDoc) (p : FxProd) (base : FxEntry) (nextId : Nat) : Applied :=
+  let v := startFixed p base.v
+  if p.purlType = "rpm" then
+    match repoOfCpe env p.cpeHelper with
     | none => .err
-    | some (v, keep) => .done { e with v := v } keep add
+    | some repo => finishFixed env d p.pid { v with repo := repo } base.rangeId none
+  else if p.purlType = "oci" then
+    let v := { v with repo := env.goldRepo }
+    match env.tags.find? (fun t => t.1 == p.fixedIn) with
+    | some (_, some mm) =>
+      let r := ociRangeOf mm
+      finishFixed env d p.pid { v with range := some r } (some nextId) (some ⟨p.pkgName, r.lower, nextId⟩)
+    | _ => .done { v with range := none } none false none      -- the tag does not parse: discard
+  else .done v base.rangeId false none                          -- neither rpm nor oci: discard
 
 def replaceEntry (es : List FxEntry) (key : String) (f : FxEntry → FxEntry) : List FxEntry :=
   es.map fun e => if e.key = key then f e else e
+
+/-- `vuln.Package.Arch = vuln.Package.Arch + "|" + arch`. -/
+def appArch (e : FxEntry) (a : String) : FxEntry :=
+  { e with v := { e.v with pkgArch := e.v.pkgArch ++ "|" ++ a } }
 
 /-- One product id of `fixed`; `none` = error. -/
 def fixedOne (env : VexEnv) (d : VexDoc) (proto : Vuln) (st : FxState) (pid : String) : Option FxState :=
@@ -495,20 +503,20 @@ def fixedOne (env : VexEnv) (d : VexDoc) (proto : Vuln) (st : FxState) (pid : St
     match st.entries.find? (fun e => e.key == p.key) with
     | some e =>
       if p.arch ≠ "" then
-        some { st with entries := replaceEntry st.entries p.key fun e => { e with v := { e.v with pkgArch := e.v.pkgArch ++ "|" ++ p.arch } } }
+        some { st with entries := replaceEntry st.entries p.key fun e => appArch e p.arch }
       else
         -- the key exists and the product has no arch: the existing entry is rebuilt in place;
         -- `discard` does nothing for it
         match applyFixed env d p e st.nextId with
         | .err => none
-        | .done e' _ add =>
-          some { entries := replaceEntry st.entries p.key fun _ => e',
+        | .done v rid _ add =>
+          some { entries := replaceEntry st.entries p.key fun e0 => { e0 with v := v, rangeId := rid },
                  adds := st.adds ++ add.toList, nextId := st.nextId + 1 }
     | none =>
       match applyFixed env d p { key := p.key, v := proto } st.nextId with
       | .err => none
-      | .done e' keep add =>
-        some { entries := if keep then st.entries ++ [e'] else st.entries,
+      | .done v rid keep add =>
+        some { entries := if keep then st.entries ++ [{ key := p.key, v := v, rangeId := rid }] else st.entries,
                adds := st.adds ++ add.toList, nextId := st.nextId + 1 }
 
 def fixedLoop (env : VexEnv) (d : VexDoc) (proto : Vuln) : FxState → List String → Option FxState
